@@ -2,6 +2,8 @@
    canonical observation per output line, prefixed by the case id. *)
 let runners : (string * (string -> string list -> string list list -> (string -> unit) -> unit)) list = [
   ("C09", Drv_c09.run);
+  ("C01", Drv_c01.run);
+  ("C08", Drv_c01.run);
 ]
 
 let () =
